@@ -488,16 +488,28 @@ func judgeTracking(res *check.Result, sc *world.Scenario, co *childOut, prop str
 	}
 	var lastFault time.Duration
 	lied := false
+	var firstTick time.Duration
+	for _, ev := range co.Events {
+		if ev.Kind == "yield" && ev.Site == "ctl.tick" && ev.ID == f.ID {
+			firstTick = ev.T
+			break
+		}
+	}
 	for _, ev := range co.Events {
 		if ev.Fault != "" && !strings.HasPrefix(ev.Fault, "driver.") {
 			lastFault = ev.T
-			if ev.Flags&(kernel.FInitSeq|kernel.FPwmMapSweep|kernel.FManual) != 0 && sc.Family == "c09init" {
-				// during the analysis only a failed READ leaves the healthy device fully characterisable: fan2go
-				// knows the read failed and the device did what it was told. A write that failed or was ignored
-				// (PWM or mode) means the device really did not take the value at that moment, and an invented
-				// number is a lie: what fan2go then measures is legitimately not the healthy device.
+			if sc.Family == "c09init" && (firstTick == 0 || ev.T < firstTick) {
+				// during the analysis only a failed READ outside the sweep leaves the healthy device fully
+				// characterisable: fan2go knows the read failed and the device did what it was told. A write that
+				// failed or was ignored (PWM or mode) means the device really did not take the value at that
+				// moment, an invented number is a lie, and a value of the sweep that could not be read back is
+				// simply missing from the map: what fan2go then measures is legitimately not the healthy device.
+				// (The sweep flag also comes from the yield points ctl.startup / ctl.measure, not from names alone.)
 				switch ev.Fault {
 				case "read.eio", "read.missing", "read.empty", "read.garbage", "read.eacces":
+					if ev.Flags&kernel.FPwmMapSweep != 0 {
+						lied = true
+					}
 				default:
 					lied = true
 				}
@@ -537,4 +549,13 @@ func judgeTracking(res *check.Result, sc *world.Scenario, co *childOut, prop str
 			"fan %s is still ticking %s after the last fault, but the PWM in force is %d while the temperatures of the last 2 s ask for %d..%d (+-%d); fault plan: %s",
 			f.ID, endT-lastFault, inForce, lo, hi, tol, faultSig)
 	}
+}
+
+// eventOfFan: the event's path / command belongs to this fan.
+func eventOfFan(sc *world.Scenario, co *childOut, ev *kernel.Event, f *world.FanSpec) bool {
+	p := strings.TrimPrefix(ev.Site, co.WorldDir+"/")
+	if ev.Kind == "yield" {
+		p = strings.TrimPrefix(ev.ID, co.WorldDir+"/")
+	}
+	return strings.Contains(p, "/"+f.ID+".") || strings.Contains(p, "/"+f.ID+"_") || (f.Kind == "hwmon" && (strings.HasSuffix(p, fmt.Sprintf("/pwm%d", f.Channel)) || strings.HasSuffix(p, fmt.Sprintf("/pwm%d_enable", f.Channel))))
 }
